@@ -15,6 +15,7 @@ import numpy as np
 
 import common
 import py2lean
+import py2lean_c20
 from common import Case, errname, REPO
 
 PID = 'C20'
@@ -47,6 +48,12 @@ THEOREMS = [
     'Nb.C20.diffusionKeys_from_source',
     'Nb.C20.dynamicKeys_from_source',
     'Nb.C20.sort_stage_keys_from_source',
+    'Nb.C20.options_survive_header_chain',
+    "Nb.C20.loadChain_eq_loadSites'",
+    'Nb.C20.strict_sort_keys_translated_eq_model',
+    'Nb.C20.sorted_indices_translated_eq_model',
+    'Nb.C20.calc_data_shape_translated_eq_model',
+    'Nb.C20.n_slices_translated_eq_model',
 ]
 ASSUMPTIONS = [
     'hand-written Lean model of nibabel/parrec.py sorting/trimming/scaling/label logic (Model/C20.lean), tied '
@@ -59,6 +66,17 @@ ASSUMPTIONS = [
     'and validated by the gen stream) and proved equal to the model; the lexsort key tuples, the field behind every '
     'key variable, dynamic_keys and the per-version field lists are read off the source with ast (text level: the '
     'if-nesting that chooses among the three diffusion_keys alternatives is modelled by hand)',
+    'METHODS translated on every run by harness/py2lean_c20.py -> Generated/C20Methods.lean (self.x reads = value '
+    'parameters, self.f(..) and np.lexsort = callable parameters, other NumPy/set operations = the primitives of '
+    'Model/C20_Py.lean, trusted and validated by the genm stream): vol_is_full, get_def, _get_n_slices, _get_n_vols, '
+    '_calc_data_shape, _lax_sort_order, get_sorted_slice_indices, the statements of _strict_sort_order up to '
+    '`keys = ...`, get_volume_labels. PROVED equal to the model: the strict key list (incl. the diffusion_keys '
+    'if-nesting and get_def), _calc_data_shape, get_sorted_slice_indices, _get_n_slices. Correspondence only (genm '
+    'stream, composed in Model/C20_PyHdr.lean with np.lexsort := the stable sort): vol_is_full, _get_n_vols, '
+    '_lax_sort_order, get_volume_labels; the second half of _strict_sort_order (2-D NumPy) is not translated',
+    'headers handed on (copy(), from_header, PARRECImage(.., header=h).header) are modelled as the constructor call '
+    'they make (Hdr.copy); options_survive_header_chain / loadChain_eq_loadSites are about that model, the chain '
+    'stream ties it to the code',
     'np.lexsort is a STABLE sort by the lexicographic order of its keys (last key first); modelled as a '
     'stable insertion sort',
     'PAR text parsing, REC reading (array_from_file), fancy indexing rec_data[..., indices] and the F-order '
@@ -94,7 +112,14 @@ RULE = ('data sets: versions V4/V4.1/V4.2 x 2-5 slices x up to 3 echoes x 3 dyna
         '(model) against the by-label analysis of the harness, and the conclusion of the theorem on the real loader '
         'whenever the hypotheses hold. helper stream: vol_numbers / vol_is_full on random slice-number lists. gen '
         'stream: the vol_numbers TRANSLATED from the working tree, run by the driver, against the real function on '
-        'arbitrary int lists. Every load case also compares img.header with a further copy() and with '
+        'arbitrary int lists. genm stream: the METHODS translated from the working tree (vol_is_full with any range '
+        'start, n_slices, n_vols, shape, lax order, strict key list, sorted indices, volume labels, get_def) run by '
+        'the driver on the encoded header against the real methods on a header holding the same records (22% of '
+        'the load cases, 50% of the edge cases). hops dimension (30% of load/read cases): the header of the opened '
+        'image is handed on through 1-3 of copy() / from_header / PARRECImage(.., header=h).header and everything is '
+        'observed through that header and a NEW PARRECArrayProxy built on it (driver op chain = loadChain). Every '
+        'load case also compares img.header (and its flags with the requested options) with from_header / a '
+        're-wrapped image / with img.header with a further copy() and with '
         'PARRECHeader.from_fileobj, the proxy scaling arrays with the own-record factors, and (diffusion) '
         'get_bvals_bvecs with the b factors of the volumes.')
 
@@ -102,6 +127,15 @@ RULE = ('data sets: versions V4/V4.1/V4.2 x 2-5 slices x up to 3 echoes x 3 dyna
 
 GEN_PATH = os.path.join(common.VERIF, 'lean', 'NibabelModel', 'Generated', 'C20Funcs.lean')
 GEN_FUNCS = [('vol_numbers', 'vol_numbers')]
+GENM_PATH = os.path.join(common.VERIF, 'lean', 'NibabelModel', 'Generated', 'C20Methods.lean')
+# (attribute path in nibabel.parrec, Lean name, cut after the first top-level assignment to this variable)
+GEN_METHODS = [('vol_is_full', 'vol_is_full', None), ('PARRECHeader.get_def', 'get_def', None),
+               ('PARRECHeader._get_n_slices', 'get_n_slices', None), ('PARRECHeader._get_n_vols', 'get_n_vols', None),
+               ('PARRECHeader._calc_data_shape', 'calc_data_shape', None),
+               ('PARRECHeader._lax_sort_order', 'lax_sort_order', None),
+               ('PARRECHeader.get_sorted_slice_indices', 'get_sorted_slice_indices', None),
+               ('PARRECHeader._strict_sort_order', 'strict_sort_keys', 'keys'),
+               ('PARRECHeader.get_volume_labels', 'get_volume_labels', None)]
 
 
 def _lean_str_list(xs):
@@ -201,7 +235,24 @@ def regen():
         tab.append('def %s : List String := %s' % (nm, _lean_str_list(t['fields'][ver])))
     tab += ['', 'end Nb.Gen.C20T', '']
     common.write_if_changed(GEN_PATH, text.rstrip('\n') + '\n' + '\n'.join(tab))
-    return ['Generated.C20Funcs.vol_numbers', 'Generated.C20Funcs.tables']
+    # the methods / array helpers that are Python control flow around NumPy primitives (py2lean_c20)
+    hdr2 = ('/-! GENERATED by harness/props/c20.py regen() from the working tree of nibabel (nibabel/parrec.py) with\n'
+            '    harness/py2lean_c20.py: `self.x` reads are value parameters, `self.f(..)` and `np.lexsort` callable\n'
+            '    parameters, the other NumPy / set operations the primitives of Model/C20_Py.lean (namespace NV).\n'
+            '    Do not edit: rewritten on every run of `./check C20`. Core Lean only. -/')
+
+    def resolve(path):
+        o = parrec
+        for part in path.split('.'):
+            o = getattr(o, part)
+        return o
+    mtext, _ = py2lean_c20.translate_methods(
+        [(resolve(py), ln, cut) for py, ln, cut in GEN_METHODS], 'Nb.Gen.C20M', hdr2,
+        known={'vol_numbers': ('Nb.Gen.C20F.vol_numbers', {}, {}, 1)},
+        imports=['import NibabelModel.Generated.C20Funcs'])
+    common.write_if_changed(GENM_PATH, mtext)
+    return ['Generated.C20Funcs.vol_numbers', 'Generated.C20Funcs.tables'] + \
+           ['Generated.C20Methods.' + ln for _, ln, _ in GEN_METHODS]
 
 
 def _r(sl, dy, pl):
@@ -332,11 +383,15 @@ def mk_case(d, stream):
                                    d['max'][3], d['max'][4])
     recs = ';'.join(','.join(str(int(v)) for v in r) for r in d['recs'])
     line = 'C20 load %d %d %s %s %s' % (d['strict'], d['permit'], d['scaling'], cfg, recs or '-')
+    if d.get('hops'):       # the header handed on through copy()/from_header/img.header, observed through a new proxy
+        line = 'C20 chain %s %d %d %s %s %s' % (d['hops'], d['strict'], d['permit'], d['scaling'], cfg, recs or '-')
     nvol = len({_label_tuple(d, r) for r in d['recs']})
     trivial = nvol <= 1 and not d.get('dropped')
     key = None if trivial else (cfg, recs, d['strict'], d['permit'], d['scaling'])
     if key is not None and (d.get('via', 'par') != 'par' or d.get('mmap', False) is not False):
         key = key + (d.get('via', 'par'), str(d.get('mmap', False)))
+    if key is not None and d.get('hops'):
+        key = key + ('hops', d['hops'])
     return Case(line, d, key, stream)
 
 
@@ -424,7 +479,46 @@ def mk_gen(sl):
                 ('gen', tuple(sl)), 'gen')
 
 
+GENM_OPS = ('n_slices', 'n_vols', 'shape', 'lax', 'keys', 'idx', 'labels', 'def')
+GENM_FIELDS = ('slice number', 'diffusion b value number', 'diffusion_b_factor', 'gradient orientation number',
+               'label type', 'echo number', 'no such field')
+
+
+def mk_genm(d, m, field=None):
+    """a TRANSLATED header method (Generated/C20Methods.lean, composed in Model/C20_PyHdr.lean) against the real
+    method on a header holding the records of `d`"""
+    d = dict(d, op='genm', m=m, stream='genm')
+    if m == 'def':
+        d['field'] = field
+    cfg = '%d,%d,%d,%d,%d,%d,%d' % (d['ver'], d['diffusion'], d['max'][0], d['max'][1], d['max'][2],
+                                   d['max'][3], d['max'][4])
+    recs = ';'.join(','.join(str(int(v)) for v in r) for r in d['recs'])
+    tok = m if m != 'def' else 'def:' + field.replace(' ', '+')
+    return Case('C20 genm %s %d %s %s' % (tok, d['strict'], cfg, recs), d, ('genm', tok, d['strict'], cfg, recs), 'genm')
+
+
+def mk_genm_full(smax, smin, sl):
+    sls = ','.join(map(str, sl)) if sl else '-'
+    return Case('C20 genm vol_is_full %d %d %s' % (smax, smin, sls),
+                {'op': 'genm', 'm': 'vol_is_full', 'smax': smax, 'smin': smin, 'sl': list(sl), 'stream': 'genm'},
+                ('genm', 'vol_is_full', smax, smin, tuple(sl)), 'genm')
+
+
+def genm_cases(rng, d, n):
+    out = []
+    for _ in range(n):
+        m = rng.choice(GENM_OPS)
+        # ('diffusion_b_factor' is a key column only of V4 files; the encoded header of later versions omits it)
+        fields = [f for f in GENM_FIELDS if f != 'diffusion_b_factor' or d['ver'] == 40]
+        out.append(mk_genm(d, m, rng.choice(fields) if m == 'def' else None))
+    return out
+
+
 def case_from_data(d):
+    if d.get('op') == 'genm':
+        if d['m'] == 'vol_is_full':
+            return mk_genm_full(d['smax'], d['smin'], d['sl'])
+        return mk_genm(d, d['m'], d.get('field'))
     if d.get('op') == 'gen':
         return mk_gen(d['sl'])
     if d.get('op') in ('volnos', 'isfull'):
@@ -571,6 +665,8 @@ def _how(rng):
         h['via'] = rng.choice(VIAS)
     if rng.random() < 0.3:
         h['mmap'] = rng.choice(MMAPS)
+    if rng.random() < 0.3:      # hand the header on: c = copy(), f = from_header, i = PARRECImage(.., header=h).header
+        h['hops'] = ''.join(rng.choice('cfi') for _ in range(rng.randint(1, 3)))
     return {k: v for k, v in h.items() if (k, v) not in (('via', 'par'), ('mmap', False))}
 
 
@@ -600,6 +696,8 @@ def variants(rng, base, tier, n_orders):
                 d = dict(base, recs=kept, strict=strict, permit=permit, scaling=scaling, order=kind,
                          dropped=k, drop_mode=mode if k else None, **_how(rng))
                 out.append(mk_case(d, 'main' if not k else 'truncated'))
+                if rng.random() < 0.22:
+                    out.extend(genm_cases(rng, d, 1))
                 if strict and rng.random() < 0.5:
                     out.append(mk_spec_case(d))
                 # sliced reads through the proxy; always for the orders that keep the first (and the last)
@@ -686,6 +784,8 @@ def edge_cases(rng, n):
         d.update(recs=recs, strict=rng.choice([1, 1, 0]), permit=rng.choice([1, 1, 0]),
                  scaling=rng.choice(['dv', 'fp']), order='edge:' + kind, dropped=None, edge=kind)
         out.append(mk_case(d, 'edge'))
+        if rng.random() < 0.5:
+            out.extend(genm_cases(rng, d, 1))
     return out
 
 
@@ -705,6 +805,12 @@ def cases(rng, tier):
         sl = [rng.randint(1, smax) if rng.random() < 0.95 else rng.choice([0, smax + 1])
               for _ in range(rng.randint(0, 10))]
         out.append(mk_helper(rng.choice(['volnos', 'isfull']), smax, sl))
+    for _ in range(n_edge // 2):        # the translated vol_is_full: any range start, values outside the range
+        smin = rng.choice([1, 1, 1, 0, 2])
+        smax = smin + rng.randint(-1, 3)
+        sl = [rng.randint(smin, max(smin, smax)) if rng.random() < 0.95 else rng.choice([smin - 1, smax + 1])
+              for _ in range(rng.randint(0, 10))]
+        out.append(mk_genm_full(smax, smin, sl))
     for _ in range(n_edge // 2):        # the translated vol_numbers: any ints (negative, large, repeated)
         pool = rng.choice([[1, 2, 3], [0, 1], [-2, 5, 7, 10 ** 6], list(range(1, 9))])
         out.append(mk_gen([rng.choice(pool) for _ in range(rng.randint(0, 14))]))
@@ -742,6 +848,26 @@ def _write_pair(d, base):
 
 
 def _open_image(d, base):
+    """open the pair the way `d['via']` says; with d['hops'] the header of that image is then handed on through
+    copy() / from_header / PARRECImage(.., header=h).header, and the image that is observed is a NEW
+    PARRECImage around a NEW PARRECArrayProxy(rec file, that header, scaling=...)"""
+    img = _open_image0(d, base)
+    if not d.get('hops'):
+        return img
+    from nibabel import parrec
+    h = img.header
+    for op in d['hops']:
+        if op == 'c':
+            h = h.copy()
+        elif op == 'f':
+            h = parrec.PARRECHeader.from_header(h)
+        else:
+            h = parrec.PARRECImage(img.dataobj, img.affine, header=h).header
+    px = parrec.PARRECArrayProxy(base + _exts(d)[1], h, mmap=d.get('mmap', False), scaling=d['scaling'])
+    return parrec.PARRECImage(px, h.get_affine(), header=h)
+
+
+def _open_image0(d, base):
     """open the pair the way `d['via']` says (default: parrec.load on the PAR name), proxy mmap mode d['mmap']"""
     import nibabel
     from nibabel import parrec
@@ -764,7 +890,12 @@ def _header_consistency(img, d):
     from nibabel import parrec
     import io
     hdr = img.header
-    others = [('header.copy()', hdr.copy())]
+    others = [('header.copy()', hdr.copy()), ('PARRECHeader.from_header(header)', parrec.PARRECHeader.from_header(hdr)),
+              ('PARRECImage(dataobj, affine, header=header).header',
+               parrec.PARRECImage(img.dataobj, img.affine, header=hdr).header)]
+    if hdr.strict_sort != bool(d['strict']) or hdr.permit_truncated != bool(d['permit']):
+        return 'header: img.header has strict_sort=%r permit_truncated=%r, the image was opened with %r / %r' % (
+            hdr.strict_sort, hdr.permit_truncated, bool(d['strict']), bool(d['permit']))
     others.append(('PARRECHeader.from_fileobj', parrec.PARRECHeader.from_fileobj(
         io.StringIO(par_text(d)), permit_truncated=bool(d['permit']), strict_sort=bool(d['strict']))))
     ref_idx = [int(i) for i in hdr.get_sorted_slice_indices()]
@@ -888,7 +1019,118 @@ def impl_gen(d):
         return errname(e)
 
 
+def _canon(v):
+    """NumPy values -> the plain Python values of the translated fragment (integral floats -> ints)"""
+    if isinstance(v, np.ndarray):
+        v = v.tolist()
+    if isinstance(v, np.generic):
+        v = v.item()
+    if isinstance(v, dict):
+        return {k: _canon(x) for k, x in v.items()}
+    if isinstance(v, (list, tuple)):
+        return [_canon(x) for x in v]
+    if isinstance(v, float) and v == int(v):
+        return int(v)
+    return v
+
+
+_PREFIX_FN = {}
+
+
+def _strict_keys_prefix(parrec):
+    """the REAL statements of `_strict_sort_order` up to `keys = ...`, compiled in the module's namespace"""
+    import ast
+    import inspect
+    import textwrap
+    key = id(parrec)
+    if key not in _PREFIX_FN:
+        fn = ast.parse(textwrap.dedent(inspect.getsource(parrec.PARRECHeader._strict_sort_order))).body[0]
+        fn = py2lean_c20.prefix_until_assign(fn, 'keys')
+        mod = ast.fix_missing_locations(ast.Module(body=[fn], type_ignores=[]))
+        ns = {}
+        exec(compile(mod, '<_strict_sort_order prefix>', 'exec'), parrec.__dict__, ns)
+        _PREFIX_FN[key] = ns[fn.name]
+    return _PREFIX_FN[key]
+
+
+def impl_genm(d):
+    import io
+    import warnings
+    from nibabel import parrec
+    m = d['m']
+    try:
+        with warnings.catch_warnings():
+            warnings.simplefilter('ignore')
+            if m == 'vol_is_full':
+                return py2lean.show_v(_canon(parrec.vol_is_full(list(d['sl']), d['smax'], d['smin'])))
+            info, defs = parrec.parse_PAR_header(io.StringIO(par_text(d)))
+            if m in ('shape', 'idx', 'labels'):       # need a fully initialised header
+                hdr = parrec.PARRECHeader(info, defs, True, bool(d['strict']))
+            else:                                     # attribute reads only: no __init__ checks in the way
+                hdr = parrec.PARRECHeader.__new__(parrec.PARRECHeader)
+                hdr.general_info, hdr.image_defs = info, defs
+                hdr.permit_truncated, hdr.strict_sort = True, bool(d['strict'])
+            if m == 'n_slices':
+                v = hdr._get_n_slices()
+            elif m == 'n_vols':
+                v = hdr._get_n_vols()
+            elif m == 'shape':
+                v = hdr._calc_data_shape()
+            elif m == 'lax':
+                v = hdr._lax_sort_order()
+            elif m == 'keys':
+                v = _strict_keys_prefix(parrec)(hdr)
+            elif m == 'idx':
+                v = hdr.get_sorted_slice_indices()
+            elif m == 'labels':
+                v = hdr.get_volume_labels()
+            else:
+                v = hdr.get_def(d['field'])
+            return py2lean.show_v(_canon(v))
+    except Exception as e:
+        return errname(e)
+
+
+def oracle_genm(d, out):
+    """independent expectations for the simple quantities; the index lists / labels are judged on the load cases"""
+    m = d['m']
+    if m == 'vol_is_full':
+        sl, lo, hi = d['sl'], d['smin'], d['smax']
+        if any(not (lo <= s <= hi) for s in sl):
+            want = 'ERR:ValueError'
+        else:
+            vols = [sl[:i].count(s) for i, s in enumerate(sl)]
+            pairs = set(zip(sl, vols))
+            want = py2lean.show_v([all((s, v) in pairs for s in range(lo, hi + 1)) for v in vols])
+        return None if out == want else 'genm: vol_is_full(%s, %d, %d) = %s, expected %s' % (sl, hi, lo, out, want)
+    sl = [r[0] for r in d['recs']]
+    S = d['max'][0]
+    if m == 'n_slices':
+        want = 'i%d' % len(set(sl))
+    elif m in ('n_vols', 'shape'):
+        if any(not (1 <= s <= S) for s in sl):
+            want = 'ERR:ValueError'
+        else:
+            nv = min(sl.count(s) for s in range(1, S + 1)) if S >= 1 else 0
+            if S < 1:
+                nv = len(set(sl[:i].count(s) for i, s in enumerate(sl)))
+            want = 'i%d' % nv if m == 'n_vols' else \
+                py2lean.show_v(list(XY) + [len(set(sl))] + ([nv] if nv > 1 else []))
+    elif m == 'def':
+        have = {'slice number': 'slice', 'echo number': 'echo', 'diffusion_b_factor': None,
+                'diffusion b value number': 'bval' if d['ver'] != 40 else '', 'label type': 'label' if d['ver'] == 42 else '',
+                'gradient orientation number': 'grad' if d['ver'] != 40 else ''}.get(d['field'], '')
+        if have is None:
+            return None
+        want = 'N' if have == '' else py2lean.show_v([r[F[have]] for r in d['recs']])
+    else:
+        return None
+    return None if out == want else 'genm: %s = %s, expected %s' % (m, out, want)
+
+
 def impl(case):
+    if case.data.get('op') == 'genm':
+        return impl_genm(case.data)
     if case.data.get('op') == 'gen':
         return impl_gen(case.data)
     if case.data.get('op') in ('volnos', 'isfull'):
@@ -1128,6 +1370,8 @@ def oracle(case, out):
             if o['data'] != pl:
                 return 'theorem-instance: loader kept %s, the complete label sets are %s' % (o['data'], pl)
         return None
+    if d.get('op') == 'genm':
+        return oracle_genm(d, out)
     if d.get('op') == 'gen':
         sl = d['sl']
         want = '[%s]' % ','.join(str(sl[:i].count(v)) for i, v in enumerate(sl))
@@ -1265,6 +1509,8 @@ def _global_check_passes(d):
 def signature(case, what):
     d = case.data
     what = str(what)
+    if d.get('op') == 'genm':
+        return 'parrec:genm:' + d.get('m', '')
     if d.get('op') == 'gen':
         return 'parrec:gen:' + d.get('fn', '')
     if d.get('op') in ('volnos', 'isfull'):
@@ -1298,6 +1544,14 @@ def shrink_candidates(case):
     if d0.get('op') in ('volnos', 'isfull'):
         for i in range(len(d0['sl'])):
             yield mk_helper(d0['op'], d0['smax'], d0['sl'][:i] + d0['sl'][i + 1:])
+        return
+    if d0.get('op') == 'genm':
+        if d0['m'] == 'vol_is_full':
+            for i in range(len(d0['sl'])):
+                yield mk_genm_full(d0['smax'], d0['smin'], d0['sl'][:i] + d0['sl'][i + 1:])
+        else:
+            for c in _shrink_raw(case):
+                yield mk_genm(dict(d0, recs=c.data['recs']), d0['m'], d0.get('field'))
         return
     if d0.get('op') == 'spec':
         for c in _shrink_raw(case):
